@@ -621,3 +621,86 @@ def show(t, depth=0) -> str:
     if h == 'lambda':
         return f'lambda/{t[1]}: {s(t[2])}'
     return h + '(' + ', '.join(s(x) if isinstance(x, tuple) else repr(x) for x in t[1:]) + ')'
+
+
+# ------------------------------------------------------- alpha-equivalence
+_COMM_TUPLE = {'and', 'or', 'min', 'max', 'set', 'bitor', 'bitand', 'mul'}
+_COMM_PAIR = {'eq', 'ne', 'is', 'isnot'}
+
+
+def alpha_eq(a, b, is_var, mapping=None) -> bool:
+    """are terms a and b equal up to a consistent (bijective) renaming of the
+    names for which ``is_var(name)`` holds?  Commutative nodes are matched up
+    to permutation (their canonical order depends on the names)."""
+    for _ in _unify(a, b, dict(mapping or {}), {}, is_var):
+        return True
+    return False
+
+
+def alpha_match(a, b, is_var):
+    """the first consistent renaming (dict b-name -> a-name) or None"""
+    for m, _ in _unify(a, b, {}, {}, is_var):
+        return m
+    return None
+
+
+def _unify(a, b, m, inv, is_var):
+    if not isinstance(a, tuple) or not isinstance(b, tuple):
+        if a == b:
+            yield m, inv
+        return
+    if a and b and a[0] == 'name' and b[0] == 'name' and len(a) == 2 and len(b) == 2:
+        va, vb = is_var(a[1]), is_var(b[1])
+        if va and vb:
+            if m.get(b[1], a[1]) == a[1] and inv.get(a[1], b[1]) == b[1]:
+                m2, i2 = dict(m), dict(inv)
+                m2[b[1]] = a[1]
+                i2[a[1]] = b[1]
+                yield m2, i2
+            return
+        if a == b:
+            yield m, inv
+        return
+    if len(a) != len(b) or (a and b and isinstance(a[0], str) and a[0] != b[0]):
+        if not (a and b and not isinstance(a[0], str) and not isinstance(b[0], str) and len(a) == len(b)):
+            return
+    h = a[0] if a and isinstance(a[0], str) else None
+    if h in _COMM_TUPLE and len(a) == 2 and isinstance(a[1], tuple) and isinstance(b[1], tuple):
+        yield from _unify_multiset(list(a[1]), list(b[1]), m, inv, is_var)
+        return
+    if h in _COMM_PAIR and len(a) == 2 and isinstance(a[1], tuple) and len(a[1]) == 2 and isinstance(b[1], tuple) and len(b[1]) == 2:
+        yield from _unify_multiset(list(a[1]), list(b[1]), m, inv, is_var)
+        return
+    if h == 'lin' and len(a) == 3:
+        if a[2] != b[2] or len(a[1]) != len(b[1]):
+            return
+        xs = [('#c', c, t) for t, c in a[1]]
+        ys = [('#c', c, t) for t, c in b[1]]
+        yield from _unify_multiset(xs, ys, m, inv, is_var)
+        return
+    yield from _unify_seq(list(a), list(b), m, inv, is_var)
+
+
+def _unify_seq(xs, ys, m, inv, is_var):
+    if len(xs) != len(ys):
+        return
+    if not xs:
+        yield m, inv
+        return
+    for m2, i2 in _unify(xs[0], ys[0], m, inv, is_var):
+        yield from _unify_seq(xs[1:], ys[1:], m2, i2, is_var)
+
+
+def _unify_multiset(xs, ys, m, inv, is_var):
+    if len(xs) != len(ys):
+        return
+    if not xs:
+        yield m, inv
+        return
+    if len(xs) > 7:
+        yield from _unify_seq(xs, ys, m, inv, is_var)
+        return
+    x = xs[0]
+    for k, y in enumerate(ys):
+        for m2, i2 in _unify(x, y, m, inv, is_var):
+            yield from _unify_multiset(xs[1:], ys[:k] + ys[k + 1:], m2, i2, is_var)
